@@ -1,4 +1,5 @@
 import RpmVerif.Model.Sign
+import RpmVerif.Model.Verify
 import RpmVerif.Lemmas.Builder
 /-! Lemmas for C10: the signature headers `sign` / `clear_signatures` install are well formed, and what the
 getters used by `verify_digests`, `verify_signature` and `signature_key_ids` return on them. -/
@@ -387,3 +388,86 @@ theorem sigRecsOk (ids : UInt8 → Bytes) (sha256 : Bytes → Bytes) (hb : Bytes
   exact ⟨fun k t => strOk_ascii _ (enc_ascii _), fun k t => small k t, by omega⟩
 
 end RpmVerif.Sign.Sym
+
+/-! ### C10's `verifyWith` and C02's `verifySignatureS` mirror the same Rust function (`Package::verify_signature`) -/
+namespace RpmVerif.Sign
+open RpmVerif.Hdr RpmVerif.Gen RpmVerif.Digest
+
+/-- the verifier object `Verifier::load_from_asc_bytes(public half of k)` as C02's `Verifier`: stateless -/
+def verifierOf (S : SigScheme) (k : S.Key) : Verify.Verifier := fun _ d s => S.verify k d s
+
+theorem verifyAll_eq_openpgpLoop (S : SigScheme) (k : S.Key) (hb : Bytes) (pre : List Verify.Consult) (sigs : List Bytes) :
+    verifyAll S k hb sigs = (Verify.openpgpLoop S.b64dec (verifierOf S k) hb pre sigs).1 := by
+  induction sigs generalizing pre with
+  | nil => rfl
+  | cons s rest ih =>
+    simp only [verifyAll, Verify.openpgpLoop]
+    cases S.b64dec s with
+    | none => rfl
+    | some sig =>
+      have e : verifierOf S k pre hb sig = S.verify k hb sig := rfl
+      cases hv : S.verify k hb sig
+      · simp [e, hv]
+      · simp only [e, hv, if_true]; exact ih _
+
+/-- one `if let Ok(sig) = tag { verifier.verify(data, sig)? }` in front of the remaining steps -/
+theorem runConsults_stepOf (S : SigScheme) (k : S.Key) (data : Bytes) (g : Out Bytes) (pgp : Bool) (pre : List Verify.Consult)
+    (rest : List (Bytes × Bytes × Bool)) :
+    ∃ pre', (Verify.runConsults (verifierOf S k) pre (Verify.stepOf g data pgp ++ rest)).1 =
+      (verifyLegacy S k data g >>= fun _ => (Verify.runConsults (verifierOf S k) pre' rest).1) := by
+  cases g with
+  | ok s =>
+    have e : verifierOf S k pre data s = S.verify k data s := rfl
+    simp only [Verify.stepOf, List.cons_append, List.nil_append, Verify.runConsults, verifyLegacy]
+    cases hv : S.verify k data s
+    · exact ⟨[], by simp [e, hv]⟩
+    · exact ⟨pre ++ [⟨data, s, true, pgp⟩], by simp only [e, hv, if_true, Out.bind_ok]⟩
+  | err c => exact ⟨pre, rfl⟩
+  | panic c => exact ⟨pre, rfl⟩
+
+/-- the legacy branch -/
+theorem verifyLegacy_eq_legacy (S : SigScheme) (k : S.Key) (hb content : Bytes) (sig : Header) :
+    (if (!(getBinary sig SigTag.RPMSIGTAG_RSA).isOk && !(getBinary sig SigTag.RPMSIGTAG_DSA).isOk
+          && !(getBinary sig SigTag.RPMSIGTAG_PGP).isOk) = true then (Out.err "nosig" : Out Unit) else do
+        verifyLegacy S k hb (getBinary sig SigTag.RPMSIGTAG_DSA)
+        verifyLegacy S k hb (getBinary sig SigTag.RPMSIGTAG_RSA)
+        verifyLegacy S k (hb ++ content) (getBinary sig SigTag.RPMSIGTAG_PGP)) =
+      (Verify.legacy (verifierOf S k) hb content sig).1 := by
+  simp only [Verify.legacy]
+  split
+  · rfl
+  · obtain ⟨p1, h1⟩ := runConsults_stepOf S k hb (getBinary sig SigTag.RPMSIGTAG_DSA) false []
+      (Verify.stepOf (getBinary sig SigTag.RPMSIGTAG_RSA) hb false ++
+        Verify.stepOf (getBinary sig SigTag.RPMSIGTAG_PGP) (hb ++ content) true)
+    obtain ⟨p2, h2⟩ := runConsults_stepOf S k hb (getBinary sig SigTag.RPMSIGTAG_RSA) false p1
+      (Verify.stepOf (getBinary sig SigTag.RPMSIGTAG_PGP) (hb ++ content) true)
+    obtain ⟨p3, h3⟩ := runConsults_stepOf S k (hb ++ content) (getBinary sig SigTag.RPMSIGTAG_PGP) true p2 []
+    rw [List.append_assoc, h1, h2]
+    rw [List.append_nil] at h3
+    rw [h3]
+    simp only [Verify.runConsults]
+    cases verifyLegacy S k hb (getBinary sig SigTag.RPMSIGTAG_DSA) <;> simp
+    cases verifyLegacy S k hb (getBinary sig SigTag.RPMSIGTAG_RSA) <;> simp
+    cases verifyLegacy S k (hb ++ content) (getBinary sig SigTag.RPMSIGTAG_PGP) <;> simp
+
+/-- **the two mirrors of `verify_signature` are one function**: C10's `verifyWith` (a key of the scheme) is C02's
+`verifySignatureS` (any, even stateful, verifier object) at the stateless verifier of that key, with the scheme's
+base64 decoder — same result, same error class -/
+theorem verifyWith_eq_verifySignatureS (S : SigScheme) (md5 sha1 sha256 : Bytes → Bytes) (k : S.Key) (p : Package) :
+    verifyWith S md5 sha1 sha256 k p = (Verify.verifySignatureS md5 sha1 sha256 S.b64dec (verifierOf S k) p).1 := by
+  unfold verifyWith Verify.verifySignatureS
+  cases verifyDigests md5 sha1 sha256 p with
+  | err c => rfl
+  | panic s => rfl
+  | ok u =>
+    simp only [Out.bind_ok]
+    cases getStringArray p.md.signature SigTag.RPMSIGTAG_OPENPGP with
+    | ok sigs =>
+      simp only
+      by_cases he : sigs.isEmpty = true
+      · simp [he]
+      · simp only [he, Bool.false_eq_true, if_false]
+        exact verifyAll_eq_openpgpLoop S k _ [] sigs
+    | err c => exact verifyLegacy_eq_legacy S k _ _ _
+    | panic s => exact verifyLegacy_eq_legacy S k _ _ _
+end RpmVerif.Sign
